@@ -74,16 +74,19 @@ class Engine:
       pre = stack.pop()
       self.reset()
       self.prefix = pre
+      aborted = False
       try:
         res = ('ok', fn())
       except Abort:
-        continue
+        aborted = True
       except Exception as ex:  # the code under test raised: a result to be judged by the harness
         res = ('exc', ex)
       for i in range(len(pre), len(self.log)):
         b, alt = self.log[i]
         if alt:
           stack.append([x for x, _ in self.log[:i]] + [not b])
+      if aborted:
+        continue
       n += 1
       yield list(self.pc), res
       if n >= maxpaths:
